@@ -124,6 +124,9 @@ def run(pid: str, repo: str, seed: int = 0) -> Dict[str, Any]:
     with ThreadPoolExecutor(max_workers=jobs) as ex:
         results = list(ex.map(lambda v: _judge(pid, repo, v), variants))
     bad = [r for r in results if r["status"] in ("MISSED", "FALSE-ALARM", "broken-variant")]
+    if os.environ.get("OQV_STRICT_VARIANTS") == "1":
+        # developer switch: a variant whose anchor text is gone is stale and must be re-written
+        bad += [r for r in results if r["status"] == "inapplicable"]
     summary = {
         "variants": len(results),
         "caught": sum(r["status"] == "caught" for r in results),
